@@ -44,10 +44,30 @@ pub enum Pred {
     FirstN(u8),
 }
 
+/// Which call of a get an op-local fault applies to.
+#[derive(Clone, Copy, Debug, Serialize, Deserialize, PartialEq, Eq)]
+pub enum CallTag {
+    Create,
+    Recycle,
+    PostCreate(u8),
+    PreRecycle(u8),
+    PostRecycle(u8),
+}
+
+/// Op-local fault: the first call of kind `at` made by this get has this outcome
+/// (overrides the scenario's outcome tables).
+#[derive(Clone, Copy, Debug, Serialize, Deserialize, PartialEq, Eq)]
+pub struct OpFault {
+    pub at: CallTag,
+    pub outcome: Outcome,
+}
+
 #[derive(Clone, Copy, Debug, Serialize, Deserialize, PartialEq, Eq)]
 pub enum Op {
     Get {
         t: GetT,
+        #[serde(default)]
+        fault: Option<OpFault>,
         /// wrap the call in `tokio::time::timeout(ms, ..)`
         enclosing: Option<u64>,
         /// the controller may abandon the call at any suspension point
